@@ -115,8 +115,13 @@ def run_job(args):
             if res["paths"] == 1:
                 sys.setprofile(_profile_functions(funcs))
             try:
-                job.fn(c, **job.params)
-                completed = True
+                try:
+                    job.fn(c, **job.params)
+                    completed = True
+                finally:
+                    exc_now = sys.exc_info()[0]
+                    if exc_now is None or not issubclass(exc_now, (ViolationFound, EngineLimit, PathAbort)):
+                        eng.flush()  # decide the deferred checks of this path
             except PathAbort:
                 res["aborted"] += 1
             except ViolationFound as v:
@@ -281,6 +286,9 @@ def main(mod, argv=None):
         with mpctx.Pool(nproc, maxtasksperchild=8) as pool:
             for r in pool.imap_unordered(run_job, args, chunksize=1):
                 results.append(r)
+                if os.environ.get("VSYM_VERBOSE"):
+                    print("  done %-90s paths=%d wall=%.1fs %s" % (r["job"][:90], r["paths"], r["wall_s"],
+                          "VIOL" if r["violation"] else (r["inconclusive"] or r["harness_error"] or "")[:200]), flush=True)
     results.sort(key=lambda r: r["job"])
 
     exit_code = 0
